@@ -223,7 +223,8 @@ Definition step (st : store) (o : op) : store * out :=
   | OPairings i => on_obj st i seq_sort_abs
   | ODuration i =>
       lift st (do s <- getn st i; do '(s', a) <- get_abs s;
-               match last_opt a with Some m => Ok (setn st i s', OZ (m_time m)) | None => Err IndexErr end)
+               (* the absolute view is regenerated before _messages[-1] raises on an empty sequence *)
+               match last_opt a with Some m => Ok (setn st i s', OZ (m_time m)) | None => Ok (setn st i s', OErr IndexErr) end)
   | OEditAbs i es => on_obj st i (fun s => seq_edit_abs s es)
   | OEditRel i es => on_obj st i (fun s => seq_edit_rel s es)
   | OBarInit i num den =>
